@@ -1,8 +1,8 @@
 """C08 — see DESIGN.md section 6."""
 from conc_engine import *
 
-MODULE = "Feox.Props.C08"
-THEOREMS = ['Feox.C08.pread_sees_data', 'Feox.C08.no_overwrite_while_pinned', 'Feox.C08.retired_refuses_and_stays',
+MODULE = "Feox.Props.C08W"
+THEOREMS = ['Feox.C08.device_read_returns_written_value', 'Feox.Fmt.extentBytes_of_holds', 'Feox.C08.pread_sees_data', 'Feox.C08.no_overwrite_while_pinned', 'Feox.C08.retired_refuses_and_stays',
             'Feox.C08.mark_needs_cleared', 'Feox.C08.identity_check_sound', 'Feox.C08.marker_fails_identity_check',
             'Feox.C08.zeros_fail_identity_check', 'Feox.Conc.Pin.step_inv', 'Feox.Conc.Pin.run_inv']
 
